@@ -5,6 +5,7 @@ import (
 	"fmt"
 	"os"
 	"strings"
+	"time"
 
 	"verif/harness/checks"
 	"verif/harness/mon"
@@ -51,6 +52,16 @@ func main() {
 		os.Exit(2)
 	}
 	run := mon.NewRun(id, tier)
+	// generous wall-clock watchdog: its firing is "inconclusive", never a verdict on the library
+	limit := 45 * time.Minute
+	if tier == "thorough" {
+		limit = 8 * time.Hour
+	}
+	go func() {
+		time.Sleep(limit)
+		fmt.Printf("INCONCLUSIVE property=%s reason=watchdog: the check did not finish within %s\n", id, limit)
+		os.Exit(2)
+	}()
 	if err := ref.SelfTestAll(); err != nil {
 		run.Inconclusive("reference self-test failed (harness error): " + err.Error())
 		os.Exit(run.Finish())
